@@ -3,11 +3,11 @@ SPECIFICATION SpecS
 CONSTANTS
   T0 = 10  MaxTime = 13
   Peers = {1, 2}  Seeders = {1}  Circuits = {1}
-  MaxIpAge = 2  MinDht = 3  MaxDht = 1  Interval = 1  ConnLimit = 2  MaxBytes = 0  MaxResult = 1
+  MaxIpAge = 1  MinDht = 2  MaxDht = 1  Interval = 1  ConnLimit = 2  MaxBytes = 0  MaxResult = 1
   SeedingChoices = {FALSE}
   DupAdd = FALSE  ExpireUsed = TRUE  NoGate = FALSE  ForgetHistory = FALSE
   Nodes = {1}  NSwarmA = 1  PSeeders = {1}  PexAge = 3  PexCap = 2  SendCap = 10
-  Unload = FALSE  ExpireNewest = FALSE  CrossSwarm = FALSE  MaxMsgs = 0
+  Unload = FALSE  ExpireNewest = FALSE  CrossSwarm = FALSE  MaxMsgs = 0  MaxAnn = 2
 INVARIANT TypeOK
 INVARIANT SwarmNoDup
 INVARIANT HistoryExact
